@@ -1,36 +1,41 @@
 ------------------------------- MODULE MCTake -------------------------------
-(* State space of the two-register builder machine: every history of <=     *)
-(* MaxCalls steps over one representative call per SelectStatement field,   *)
-(* take, clone and the clear / reset operations, on either register.        *)
+(* State space of the two-register builder machine for one statement kind:  *)
+(* every history of <= MaxCalls steps over one representative call per      *)
+(* field of the builder, take (where the builder has it), clone and the     *)
+(* clear / reset operations, on either register.                            *)
 EXTENDS Take, FiniteSets
-CONSTANT MaxCalls
-Menu == JsonDeserialize("take_menu.json")
+CONSTANTS MaxCalls, Kind
+Menu == JsonDeserialize("take_menu.json")[Kind]
 Clear(op) == [op |-> op]
 Actions ==
   {Menu[i] : i \in DOMAIN Menu}
   \cup {Menu[i] @@ [reg |-> 2] : i \in DOMAIN Menu}
-  \cup {[op |-> "take"], [op |-> "clone"]}
-  \cup {Clear(o) : o \in ClearOps} \cup {Clear(o) @@ [reg |-> 2] : o \in ClearOps}
+  \cup (IF HasTake(Kind) THEN {[op |-> "take"]} ELSE {}) \cup {[op |-> "clone"]}
+  \cup {Clear(o) : o \in ClearOpsOf(Kind)} \cup {Clear(o) @@ [reg |-> 2] : o \in ClearOpsOf(Kind)}
 VARIABLES R, hist
 vars == <<R, hist>>
-Init == R = InitRegs /\ hist = <<>>
-Next == Len(hist) < MaxCalls /\ \E c \in Actions : R' = StepRegs(R, c) /\ hist' = Append(hist, c)
+Init == R = InitRegsK(Kind) /\ hist = <<>>
+Next == Len(hist) < MaxCalls /\ \E c \in Actions : R' = StepRegsK(Kind, R, c) /\ hist' = Append(hist, c)
 Spec == Init /\ [][Next]_vars
 
 \* the histories rebuild the registers (what the replay's reference statements rely on)
-HistoriesRebuild == ApplyAll(NewSelect, R.h1, 1) = R.m1 /\ ApplyAll(NewSelect, R.h2, 1) = R.m2
+HistoriesRebuild == ApplyAll(NewOf(Kind), R.h1, 1) = R.m1 /\ ApplyAll(NewOf(Kind), R.h2, 1) = R.m2
 \* a step addressed to one register never changes the other (value semantics)
 NonInterference ==
   [][ LET c == hist'[Len(hist')] IN
       (c.op \notin {"take", "clone"}) =>
         IF "reg" \in DOMAIN c /\ c.reg = 2 THEN R'.m1 = R.m1 ELSE R'.m2 = R.m2 ]_vars
-TakeLeavesNew == (Len(hist) > 0 /\ hist[Len(hist)].op = "take") => R.m1 = NewSelect
+TakeLeavesNew == (Len(hist) > 0 /\ hist[Len(hist)].op = "take") => R.m1 = NewOf(Kind)
 CloneEqual == (Len(hist) > 0 /\ hist[Len(hist)].op = "clone") => R.m2 = R.m1
+\* a clear operation changes nothing but its own clause
+ClearOnlyThatClause ==
+  [][ LET c == hist'[Len(hist')] IN
+      (c.op \in ClearOps /\ ~("reg" \in DOMAIN c)) => R'.m1 = ApplyAll(NewOf(Kind), Without(R.h1, c.op), 1) ]_vars
 \* refs: for every clear step on register 1, the calls that rebuild the cleared statement
 RECURSIVE RefsOf(_, _)
 RefsOf(calls, n) ==
   IF n = 0 THEN <<>>
   ELSE RefsOf(calls, n - 1) \o
-       (IF calls[n].op \in ClearOps /\ ~("reg" \in DOMAIN calls[n]) THEN <<[step |-> n, calls |-> RegsAfter(calls, n).h1]>> ELSE <<>>)
-Emit == Len(hist) = 0 \/ PrintT(<<"CASE", ToJson([calls |-> hist, refs |-> RefsOf(hist, Len(hist))])>>)
+       (IF calls[n].op \in ClearOps /\ ~("reg" \in DOMAIN calls[n]) THEN <<[step |-> n, calls |-> RegsAfterK(Kind, calls, n).h1]>> ELSE <<>>)
+Emit == Len(hist) = 0 \/ PrintT(<<"CASE", ToJson([kind |-> Kind, calls |-> hist, refs |-> RefsOf(hist, Len(hist))])>>)
 =============================================================================
